@@ -166,17 +166,29 @@ def ensure(repo, verif, cfgname, cfg=None, log=None):
             shutil.rmtree(out, ignore_errors=True)
             raise RuntimeError('fact extraction produced no fact files (config %s)' % cfgname)
         with open(stamp, 'w') as fh:
-            fh.write(json.dumps({'digest': digest, 'files': len(files), 'source_files': nfiles, 'cmd': cmd}))
+            fh.write(json.dumps({'digest': digest, 'files': len(files), 'source_files': nfiles, 'cmd': cmd, 'repo': os.path.abspath(repo)}))
         prune(os.path.join(cache, "facts"), keep=12, protect=digest)
     return out, digest, time.time() - t0
 
 
 def prune(root, keep, protect):
+    """drop old fact dirs; scratch-copy digests go first, the newest digest of /repo itself is never dropped"""
     try:
         ds = [(os.path.getmtime(os.path.join(root, d)), d) for d in os.listdir(root)]
     except OSError:
         return
     ds.sort(reverse=True)
+
+    def is_repo(d):
+        for cfg in ('full', 'plain'):
+            try:
+                with open(os.path.join(root, d, cfg, 'DONE')) as fh:
+                    if json.load(fh).get('repo') == '/repo':
+                        return True
+            except (OSError, ValueError):
+                pass
+        return False
+    newest_repo = next((d for _, d in ds if is_repo(d)), None)
     for _, d in ds[keep:]:
-        if d != protect:
+        if d != protect and d != newest_repo:
             shutil.rmtree(os.path.join(root, d), ignore_errors=True)
